@@ -40,6 +40,9 @@ def run(ctx: Ctx):
     from .common import dependency_footprints
 
     dependency_footprints(ctx)
+    from .common import rebuild_forwards_settings
+
+    rebuild_forwards_settings(ctx, "rebuild-settings", "cube.py", "Cube", ("population",))
 
 
 def scaling(ctx: Ctx):
@@ -95,11 +98,21 @@ def selection(ctx: Ctx):
         ci = ctx.repo.cls(SM, cname)
         for part in ("base_values", "subtotal_values"):
             e = expand(ctx.repo, ci, part)
-            want = (
-                f"np.repeat({const}, self._measures.{inner}.{part}.shape) if self._rows_dimension.dimension_type == DT.CAT_DATE "
-                f"else self._measures.{inner}.{part}"
-            )
+            want = [
+                f"np.repeat({c}, self._measures.{inner}.{part}.shape) if self._rows_dimension.dimension_type == DT.CAT_DATE else self._measures.{inner}.{part}"
+                for c in (const, const + ".0")
+            ] + [f"np.full(self._measures.{inner}.{part}.shape, {const}.0) if self._rows_dimension.dimension_type == DT.CAT_DATE else self._measures.{inner}.{part}"]
             ctx.check_expr("selection.stripe", f"{SM}::{cname}.{part}", e, want, "categorical-date strand: every wave projects the full population (proportion 1, standard error 0); else the table values")
+            # the PROPORTIONS receive NaN for subtotal differences afterwards (diff-nan rule): the constant array that stands
+            # in for them on a categorical-date strand must be a float array - an integer array cannot hold NaN
+            if cname == "_PopulationProportions":
+                ints = [u(c) for c in ast.walk(e) if isinstance(c, ast.Call) and u(c.func) in ("np.repeat", "np.full", "np.tile", "np.ones", "np.zeros")
+                        and any(isinstance(a, ast.Constant) and isinstance(a.value, int) and not isinstance(a.value, bool) for a in c.args)
+                        and not any(k.arg == "dtype" for k in c.keywords) and u(c.func) not in ("np.ones", "np.zeros")]
+                if ints:
+                    ctx.violated("selection.stripe.float", f"{SM}::{cname}.{part}", ints, "a float array (np.repeat(1.0, ..))", "an integer array cannot hold the NaN that marks a subtotal difference: population_counts of such a strand raises ValueError")
+                else:
+                    ctx.held("selection.stripe.float", f"{SM}::{cname}.{part}", "no integer-literal array stands in for the proportions", "")
 
 
 def diffs(ctx: Ctx):
